@@ -16,7 +16,7 @@ FUNCTIONS = ["MolGraph.__eq__", "StereoMolGraph.__eq__", "CondensedReactionGraph
              "color_refine_*", "_StereoMixin.__eq__"]
 BOUNDS = {"quick": "all graphs over universe {0,1,2} of the four classes (roles, descriptors with placeholders / unspecified parity, stereo changes; "
                    "listed restrictions) x all renamings + fresh-id shifts; templates star4 (Tet/SP), lonepair, dbond (PB/Atrop), ring4, sn2 with all "
-                   "orderings / parities / group elements",
+                   "orderings / parities / group elements; centres of degree 1..7 (thorough 8) without descriptor",
           "thorough": "universe {0,1,2,3} for MG/CRG; all decorations; templates star5 (TBP), star6 (Oct, orderings sampled by stride), twocentre"}
 OUTSIDE = "graphs whose descriptors name identifiers that are not atoms of the graph; graphs with more than 4 atoms other than the templates (<= 8 atoms); renamings of templates beyond generators + 12 seeded permutations"
 ASSUMPTIONS = ["a variant is built through the public API (relabel_atoms or re-insertion); the expected answer 'equal' follows from the construction, no oracle needed"]
@@ -30,7 +30,13 @@ def _check(spec, gi, flip, seed=0):
             return "g == g is False"
     except Exception as e:
         return f"g == g raised {type(e).__name__}: {e}"
-    for what, h in eqlib.variants(spec, gi, flip, seed):
+    vs = []
+    try:
+        for v in eqlib.variants(spec, gi, flip, seed):
+            vs.append(v)
+    except Exception as e:
+        return f"building the variant after [{vs[-1][0] if vs else 'none'}] through the public API raised {type(e).__name__}: {e}"
+    for what, h in vs:
         try:
             r1, r2, r3 = (g == h), (h == g), g.is_isomorphic(h)
             ne = (g != h)
@@ -56,7 +62,7 @@ def template(t, cls, gi, flip, **sel):
     return _check(eqfam.template_spec(name, gl.CLS_NAMES[cls], sel), gi, flip)
 
 
-TNAMES = ["star4", "lonepair", "dbond", "ring4", "sn2", "twocentre", "star5", "star6"]
+TNAMES = ["star4", "lonepair", "dbond", "ring4", "sn2", "twocentre", "star5", "star6", "bare"]
 
 
 def plan(tier, seed, func_mod="vp.props.C01"):
@@ -73,36 +79,39 @@ def plan(tier, seed, func_mod="vp.props.C01"):
             pre += ["ds < 10"]       # descriptors name atoms of the graph or placeholders (a descriptor naming a non-atom makes ==/hash raise: outside)
         if tier == "quick":
             pre += ["el < 2"]
+            if cname == "SMG":
+                pre += ["gi < 2 or ds in (1, 8, 9)", "el == 0 or ds in (0, 1, 6, 8)"]
             if gl.is_reaction(cname):
                 pre += ["role in (0, 1, 3, 4, 6)"]
             if cname == "SCRG":
-                pre += ["ds in (0, 1, 3, 8)", "cs in (0, 3, 5, 7)", "role in (0, 4) or (ds == 0 and cs == 0)", "gi < 2", "not xa", "el == 0 or (ds in (0, 8) and cs in (0, 7))"]
+                pre += ["ds in (0, 1, 3, 8)", "cs in (0, 3, 5, 7)", "role in (0, 4) or (ds == 0 and cs == 0)", "gi < 2", "not xa", "el == 0 or (ds in (0, 8) and cs in (0, 7))",
+                        "gi == 0 or ds == 8 or cs == 5"]
         elif kk == 4:
             pre += ["not xa", "el < 2 or cls == 0"]
         elif cname == "SCRG":
             pre += ["el < 2", "not xa", "ds in (0, 1, 3, 6, 8, 9)", "role in (0, 1, 3, 4, 6)", "ds in (0, 8) or cs in (0, 3, 7)", "gi < 2 or (ds == 8 and cs == 0)"]
         units.append(Sel(name=f"small_{cname}", func=f"{func_mod}:small{kk}", params=params, pre=pre, shard_by=["el"], timeout=1500,
                          nontrivial="p0 and p1"))
-    names = ["star4", "lonepair", "dbond", "ring4", "sn2"] + (["twocentre", "star5", "star6"] if tier == "thorough" else [])
+    names = ["star4", "lonepair", "dbond", "ring4", "sn2", "bare"] + (["twocentre", "star5", "star6"] if tier == "thorough" else [])
     for (n, c, p, pr) in eqfam.template_units(names):
         params = {"t": (TNAMES.index(n), TNAMES.index(n) + 1), "cls": (gl.CLS_NAMES.index(c), gl.CLS_NAMES.index(c) + 1)}
         params.update(p)
-        gmax = {"star4": 12, "lonepair": 12, "dbond": 4, "ring4": 3, "sn2": 6, "twocentre": 3, "star5": 6, "star6": 24}[n]
+        gmax = {"bare": 1, "star4": 12, "lonepair": 12, "dbond": 4, "ring4": 3, "sn2": 6, "twocentre": 3, "star5": 6, "star6": 24}[n]
         params["gi"] = (0, gmax)
         params["flip"] = "bool"
-        pre = list(pr)
+        pre = list(pr) + (["flip == False"] if n == "bare" else [])
         if tier == "quick":
             pre += {"star4": ["lig in (0, 1)", "gi % 4 == 0", "order % 5 == 0 or order < 4", "chg in (0, 2)"],
                     "lonepair": ["lig in (0, 1)", "gi % 4 == 0", "order % 5 == 0", "chg in (0, 1)"],
                     "dbond": ["sub in (0, 1, 2, 4)", "order % 9 == 0 or order < 3", "chg in (0, 3)", "gi % 2 == 0"],
-                    "ring4": ["chg in (0, 2)"], "sn2": ["gi < 3"]}.get(n, [])
+                    "ring4": ["chg in (0, 2)"], "sn2": ["gi < 3"], "bare": ["k < 8", "k < 7 or cls == 1"]}.get(n, [])
         else:
             pre += {"star6": ["order % 11 == 0", "gi % 5 == 0", "lig in (0, 1, 3)", "chg in (0, 2)"],
                     "star5": ["order % 3 == 0", "chg in (0, 1, 2)"],
                     "star4": ["gi % 2 == 0", "chg < 3"], "lonepair": ["gi % 2 == 0", "chg in (0, 2)", "order % 2 == 0 or lig == 0"],
                     "dbond": ["chg in (0, 2)", "sub != 3"]}.get(n, [])
         units.append(Sel(name=f"{n}_{c}", func=f"{func_mod}:template", params=params, pre=pre, shard_by=["par"] if "par" in params else [],
-                         timeout=1500, nontrivial="gi > 0 or flip"))
+                         timeout=1500, nontrivial="k > 2" if n == "bare" else "gi > 0 or flip"))
     return units
 
 
